@@ -879,6 +879,11 @@ func (m *M) checkFault(b, route string, a Args, pre *snapshot, r *world.Result, 
 	if issued && mwAuth0 && newU == cookiePID0 && rememberLicenceLive(m, pre, cookiePID0) {
 		m.violate("C18", "unconsumed:remember", fmt.Sprintf("backend call %d (%s) failed, yet the remember cookie of %q logged in while its token is still in storage", f.At, call, newU), b)
 	}
+	// (C07 under faults) a remember-cookie login is never more than half-authenticated
+	if issued && mwAuth0 && newU == cookiePID0 && post.Sess["halfauth"] != "true" && r.Wrote &&
+		!(route == "login" || route == "otplogin" || route == "oend" || route == "totpvalidate" || route == "smsvalidate" || route == "logout") {
+		m.violate("C07", "no-halfauth", fmt.Sprintf("backend call %d (%s) failed, and the remember-cookie login of %q is not marked half-authenticated", f.At, call, newU), b)
+	}
 	// recovery code accepted while still stored
 	if (route == "totpvalidate" || route == "smsvalidate") && a.RCode != "" && issued && !(mwAuth0 && post.Sess["halfauth"] == "true") {
 		if u0, u1 := pre.users[newU], m.W.Store.Users[newU]; u0 != nil && u1 != nil && recCodeValid(u0, a.RCode) && recCodeValid(u1, a.RCode) &&
